@@ -155,6 +155,44 @@ impl FsOcflStore {
         None
     }
 
+    /// Ensures that the root of a new object is a path inside the storage root that is not
+    /// nested within the root of another object
+    fn validate_new_object_root(&self, object_id: &str, object_root: &str) -> Result<()> {
+        let mut current = self.storage_root.clone();
+        let mut components = Path::new(object_root).components().peekable();
+
+        while let Some(component) = components.next() {
+            match component {
+                path::Component::Normal(part) => current.push(part),
+                path::Component::CurDir => continue,
+                _ => {
+                    return Err(RocflError::IllegalState(format!(
+                        "Cannot create object {} because its object root, {}, is not a path within the storage root",
+                        object_id, object_root
+                    )));
+                }
+            }
+
+            if components.peek().is_some() && current.is_dir() && is_object_root(&current)? {
+                return Err(RocflError::IllegalState(format!(
+                    "Cannot create object {} because its object root, {}, is nested within the object at {}",
+                    object_id,
+                    object_root,
+                    current.to_string_lossy()
+                )));
+            }
+        }
+
+        if current == self.storage_root {
+            return Err(RocflError::IllegalState(format!(
+                "Cannot create object {} because its object root, {}, is not a path within the storage root",
+                object_id, object_root
+            )));
+        }
+
+        Ok(())
+    }
+
     fn scan_for_inventory(&self, object_id: &str) -> Result<Inventory> {
         info!(
             "Storage layout not configured, scanning repository to locate object {}",
@@ -341,6 +379,8 @@ impl OcflStore for FsOcflStore {
                 }
             }
         };
+
+        self.validate_new_object_root(&inventory.id, &root_path)?;
 
         let storage_path = self.storage_root.join(root_path);
 
